@@ -212,8 +212,9 @@ def run(case):
         mo.df = mo.df.iloc[::-1]
         model = model.iloc[::-1].reset_index(drop=True)
     out.label(f"history_step:{step}")
-    ok, _ = call(out, "write_out(second)", lambda: mo.write_out("h2.em"))
+    second = "h1.em" if (n + step) % 2 == 0 else "h2.em"  # saving again under the same name replaces the file
+    ok, _ = call(out, "write_out(second)", lambda: mo.write_out(second))
     if ok:
-        bad = oracle.em_motl_mismatch("h2.em", model)
+        bad = oracle.em_motl_mismatch(second, model)
         out.check(bad is None, f"history:second_file_does_not_hold_the_changed_list:{bad}", f"{form} step {step}")
     return out
